@@ -53,7 +53,7 @@ def run(tier):
     ck = Check("C08", tier, "model_checking")
     ck.flex()
     tot = dict(executions=0, tokens=0, choice_points=0, op_effects=0, nontrivial=0, inputs=0, expected_fatals=0, horizons=0)
-    ops_hist = [0] * 14
+    ops_hist = [0] * 16
     for job, res in pmap(H.run_groups_job, jobs_for(tier), check=ck):
         if "worker_exception" in res:
             ck.broken.append("worker failed on %s: %s" % (job["tag"], res["worker_exception"]))
@@ -88,7 +88,7 @@ def run(tier):
                   evaluations=tot["executions"], distinct_nontrivial=tot["nontrivial"], tokens_compared=tot["tokens"],
                   inputs=tot["inputs"], expected_pushback_overflows=tot["expected_fatals"], horizon_cuts=tot["horizons"],
                   op_histogram=dict(zip(["none", "yyless", "yyunput", "yyinput", "yyinput*2", "yyinput*3", "yymore", "yyreject",
-                                         "yybegin", "push", "pop", "top", "setbol", "return"], ops_hist)),
+                                         "yybegin", "push", "pop", "top", "setbol", "return", "setline", "-"], ops_hist)),
                   rule="states = choice points visited, transitions = operations applied and compared; an execution = one input x "
                        "buffer size x choice vector (operation per action, arguments exhaustive) run through the real yylex() in lock "
                        "step with the deque model; non-trivial = >= 2 tokens from >= 2 rules")
